@@ -38,11 +38,12 @@ Definition wf_event (ev : event) : bool :=
   | EAdvance sc est answers dflt mined ages =>
     in_u32 sc && in_u32 est && forallb (fun p => wf_answer (snd p)) answers && wf_answer dflt
     && forallb (fun p => in_u32 (snd p)) mined
-    && forallb (fun a => (1 <=? a) && (a <=? 64)) ages && existsb (Z.eqb 1) ages
+    && forallb (fun a => (1 <=? a) && (a <=? 64)) ages && (length ages <=? 63)%nat
   | EMarkMined _ h | ERollback h => in_u32 h
   | EReportFailure _ tip => in_u32 tip
   | ERecordSat sc est dets => in_u32 sc && in_u32 est && forallb (fun p => wf_answer (snd p)) dets
   | ERebuild _ tip _ _ _ sched anchor _ => in_u32 tip && in_u32 sched && in_u32 anchor
+  | EStatuses sc est => in_u32 sc && in_u32 est
   | _ => true
   end.
 
@@ -58,4 +59,4 @@ Fixpoint increasing (l : list Z) : bool :=
 Definition wf_case (c : case) : bool :=
   let '(Case pre ev post _ p) := c in
   wf_state pre && wf_event ev
-  && match p with PNone => true | PRows _ _ _ _ _ _ _ _ => increasing (map t_id (m_txs post)) end.
+  && match p with PNone => true | PRows _ _ _ _ _ _ _ _ _ => increasing (map t_id (m_txs post)) end.
